@@ -1,0 +1,127 @@
+//! Verification hooks (only compiled with `--cfg gluon_verif`).
+//!
+//! Every hook is a function pointer slot that defaults to a no-op, so a build with the cfg but
+//! without an installed simulator behaves exactly like the normal build.
+use std::sync::{
+    Mutex,
+    atomic::{AtomicBool, AtomicU32, AtomicU64, AtomicUsize, Ordering},
+};
+
+/// `sched_point(site, lock_addr, probe)`: called immediately before an instrumented lock
+/// acquisition. `probe` returns true if the lock could be taken right now.
+pub type SchedPointFn = fn(site: &'static str, addr: usize, probe: &dyn Fn() -> bool);
+/// `gc_decide(heap, allocated, limit)`: true => force a collection at this `check_collect`
+pub type GcDecideFn = fn(heap: u32, allocated: usize, limit: usize) -> bool;
+/// Called when a freed (quarantined) gc object is dereferenced, marked or walked
+pub type FreedFn = fn(kind: &'static str, owner: u32, addr: usize);
+/// Generic event probe `(name, a, b)`
+pub type EventFn = fn(name: &'static str, a: usize, b: usize);
+
+static SCHED_POINT: AtomicUsize = AtomicUsize::new(0);
+static GC_DECIDE: AtomicUsize = AtomicUsize::new(0);
+static ON_FREED: AtomicUsize = AtomicUsize::new(0);
+static ON_EVENT: AtomicUsize = AtomicUsize::new(0);
+static QUARANTINE: AtomicBool = AtomicBool::new(false);
+static NEXT_HEAP: AtomicU32 = AtomicU32::new(1);
+static FREED_HITS: AtomicU64 = AtomicU64::new(0);
+
+static QUARANTINED: Mutex<Vec<(usize, usize)>> = Mutex::new(Vec::new());
+
+pub fn install_sched_point(f: Option<SchedPointFn>) {
+    SCHED_POINT.store(f.map_or(0, |f| f as usize), Ordering::SeqCst);
+}
+pub fn install_gc_decide(f: Option<GcDecideFn>) {
+    GC_DECIDE.store(f.map_or(0, |f| f as usize), Ordering::SeqCst);
+}
+pub fn install_on_freed(f: Option<FreedFn>) {
+    ON_FREED.store(f.map_or(0, |f| f as usize), Ordering::SeqCst);
+}
+pub fn install_on_event(f: Option<EventFn>) {
+    ON_EVENT.store(f.map_or(0, |f| f as usize), Ordering::SeqCst);
+}
+
+#[inline]
+pub fn sched_point(site: &'static str, addr: usize, probe: &dyn Fn() -> bool) {
+    let f = SCHED_POINT.load(Ordering::Relaxed);
+    if f != 0 {
+        let f: SchedPointFn = unsafe { std::mem::transmute(f) };
+        f(site, addr, probe)
+    }
+}
+
+#[inline]
+pub fn gc_decide(heap: u32, allocated: usize, limit: usize) -> bool {
+    let f = GC_DECIDE.load(Ordering::Relaxed);
+    if f != 0 {
+        let f: GcDecideFn = unsafe { std::mem::transmute(f) };
+        f(heap, allocated, limit)
+    } else {
+        false
+    }
+}
+
+#[inline(never)]
+pub fn on_freed(kind: &'static str, owner: u32, addr: usize) {
+    FREED_HITS.fetch_add(1, Ordering::SeqCst);
+    let f = ON_FREED.load(Ordering::Relaxed);
+    if f != 0 {
+        let f: FreedFn = unsafe { std::mem::transmute(f) };
+        f(kind, owner, addr)
+    }
+}
+
+#[inline]
+pub fn event(name: &'static str, a: usize, b: usize) {
+    let f = ON_EVENT.load(Ordering::Relaxed);
+    if f != 0 {
+        let f: EventFn = unsafe { std::mem::transmute(f) };
+        f(name, a, b)
+    }
+}
+
+pub fn freed_hits() -> u64 {
+    FREED_HITS.load(Ordering::SeqCst)
+}
+
+pub fn next_heap_id() -> u32 {
+    NEXT_HEAP.fetch_add(1, Ordering::SeqCst)
+}
+
+/// Resets the heap id counter so that ids are a deterministic function of the run
+pub fn reset_heap_ids() {
+    NEXT_HEAP.store(1, Ordering::SeqCst);
+}
+
+/// While enabled, freed gc blocks are poisoned and kept allocated (never reused) until
+/// `quarantine_flush`
+pub fn set_quarantine(on: bool) {
+    QUARANTINE.store(on, Ordering::SeqCst);
+}
+
+pub fn quarantine_enabled() -> bool {
+    QUARANTINE.load(Ordering::Relaxed)
+}
+
+pub(crate) fn quarantine_push(ptr: usize, size: usize) {
+    QUARANTINED
+        .lock()
+        .unwrap_or_else(|err| err.into_inner())
+        .push((ptr, size));
+}
+
+/// Number of blocks and bytes currently quarantined
+pub fn quarantine_stats() -> (usize, usize) {
+    let q = QUARANTINED.lock().unwrap_or_else(|err| err.into_inner());
+    (q.len(), q.iter().map(|&(_, s)| s).sum())
+}
+
+/// Actually releases all quarantined blocks.
+///
+/// Must only be called when no `GcPtr` into a quarantined block can be dereferenced anymore
+/// (i.e. after every VM of the run has been dropped)
+pub unsafe fn quarantine_flush() {
+    let blocks = std::mem::take(&mut *QUARANTINED.lock().unwrap_or_else(|err| err.into_inner()));
+    for (ptr, size) in blocks {
+        unsafe { crate::gc::verif_deallocate(ptr as *mut u8, size) };
+    }
+}
